@@ -13,9 +13,7 @@
    Converter: proved for every index tuple (any number of constant ints, slices, tensor-valued indices of any rank):
    the emitted chain computes the per-axis view (sound + complete, Index/AdvChain.v, AdvConvProofs.v), hence NumPy's result
    exactly on the good forms (sound + complete) and the outer arrangement on the others.
-   Not covered by a general theorem: the same step for eager Tensor.__getitem__ with a tensor index of rank >= 1 (its chain is
-   [Gather of the lone scalar], then the tensor Gathers last axis first; AdvChain.chain_sound applies, the stage lemma for
-   eager is not written) -- proved for ints / rank-0 tensors / slices, compared with eager evaluation on every generated case. *)
+   Eager: the same, Props/C11_summary.v (Index/AdvEagerProofs.v), together with the one-statement summary of the property. *)
 From Coq Require Import ZArith List Bool.
 Import ListNotations.
 Require Import OV.Index.NumpySpec OV.Index.OnnxSlice OV.Index.ConverterIdx OV.Index.EagerIdx OV.Index.ViewProofs
